@@ -196,7 +196,11 @@ class ProgressivelyTerminalDecider(BaseDecider):
             else:
                 return target - self.grammar.get_distance_to_terminal(n)
 
-        weights = [w(alt) * self.grammar.get_weights().get(alt, 1.0) for alt in alternatives]
+        production_weights = self.grammar.get_weights()
+        weights = [w(alt) * production_weights.get(alt, 1.0) for alt in alternatives]
+        if not any(x > 0 for x in weights):
+            # every depth factor is zero: only the grammar's own weights are left to go by
+            weights = [production_weights.get(alt, 1.0) for alt in alternatives]
         return self.random.choice_weighted(alternatives, weights)
 
 
